@@ -124,6 +124,106 @@ def signatures(trees):
     return dict((k, list(v)[0]) for k, v in seen.items() if len(v) == 1 and None not in v and not k.startswith('__'))
 
 
+SOLID_CALLS = frozenset(('read', 'decode', 'encode', 'recv', 'getvalue', 'join', 'format', 'replace', 'strip', 'lstrip', 'rstrip', 'lower', 'upper',
+                         'str', 'bytes', 'int', 'float', 'bool', 'len', 'list', 'tuple', 'dict', 'set', 'repr', 'chr', 'ord', 'max', 'min', 'abs', 'sorted'))
+
+
+def _falls_off(body):
+    """can control run off the end of this block?"""
+    if not body:
+        return True
+    s = body[-1]
+    if isinstance(s, (ast.Return, ast.Raise)):
+        return False
+    if isinstance(s, ast.If):
+        return _falls_off(s.body) or _falls_off(s.orelse)
+    if isinstance(s, ast.Try):
+        if s.finalbody and not _falls_off(s.finalbody):
+            return False
+        return (_falls_off(s.orelse) if s.orelse else _falls_off(s.body)) or any(_falls_off(h.body) for h in s.handlers)
+    if isinstance(s, ast.While) and isinstance(s.test, ast.Constant) and s.test.value in (True, 1) and not s.orelse:
+        return any(isinstance(x, ast.Break) for x in ast.walk(s))
+    if isinstance(s, (ast.With, ast.AsyncWith)):
+        return _falls_off(s.body)
+    return True
+
+
+def never_none_functions(trees):
+    """names of package functions every definition of which always returns something that cannot be None: no bare return, no
+    falling off the end, every returned value built from calls that yield text / numbers / containers (os.read, .decode, ...),
+    constants other than None, or other such functions"""
+    defs = {}
+    for t in trees:
+        for n in ast.walk(t):
+            if isinstance(n, ast.FunctionDef):
+                defs.setdefault(n.name, []).append(n)
+            elif isinstance(n, ast.AsyncFunctionDef):
+                defs.setdefault(n.name, []).append(None)
+    good = set()
+    assume = [None]
+
+    def solid(e, fn, depth=0):
+        if isinstance(e, ast.Constant):
+            return e.value is not None
+        if isinstance(e, (ast.JoinedStr, ast.List, ast.Tuple, ast.Dict, ast.Set, ast.ListComp, ast.Compare)):
+            return True
+        if isinstance(e, ast.BinOp):
+            return solid(e.left, fn, depth) or solid(e.right, fn, depth)
+        if isinstance(e, ast.Subscript) and isinstance(e.slice, ast.Slice):
+            return True
+        if isinstance(e, ast.Call):
+            f = e.func
+            nm = f.attr if isinstance(f, ast.Attribute) else (f.id if isinstance(f, ast.Name) else None)
+            if nm == assume[0] and isinstance(f, ast.Attribute) and isinstance(f.value, ast.Call) and isinstance(f.value.func, ast.Name) and f.value.func.id == 'super':
+                return True
+            return nm in SOLID_CALLS or nm in good
+        if isinstance(e, ast.Name) and depth < 3:
+            def binds(n):
+                if isinstance(n, ast.Assign):
+                    parts = n.targets
+                elif isinstance(n, (ast.AugAssign, ast.For, ast.AsyncFor, ast.NamedExpr)):
+                    parts = [n.target]
+                elif isinstance(n, (ast.With, ast.AsyncWith)):
+                    parts = [i.optional_vars for i in n.items if i.optional_vars is not None]
+                elif isinstance(n, ast.ExceptHandler):
+                    return n.name == e.id
+                else:
+                    return False
+                return any(isinstance(x, ast.Name) and x.id == e.id for p_ in parts for x in ast.walk(p_))
+            asg = [n for n in ast.walk(fn) if binds(n)]
+            if not asg or e.id in [a.arg for a in fn.args.args]:
+                return False
+            return all(isinstance(a, ast.Assign) and len(a.targets) == 1 and isinstance(a.targets[0], ast.Name) and solid(a.value, fn, depth + 1) for a in asg)
+        return False
+    for _ in range(3):
+        for name, ds in defs.items():
+            if name in good or None in ds:
+                continue
+            assume[0] = name          # a definition may return what another definition of the same name returns (super().f(...))
+            ok = True
+            for fn in ds:
+                if any(isinstance(x, (ast.Yield, ast.YieldFrom)) for x in ast.walk(fn)) or _falls_off(fn.body):
+                    ok = False
+                    break
+                guarded = set()          # `return x` inside `if x is not None:`
+                for i_ in ast.walk(fn):
+                    if isinstance(i_, ast.If) and isinstance(i_.test, ast.Compare) and len(i_.test.ops) == 1 and isinstance(i_.test.ops[0], ast.IsNot) \
+                            and isinstance(i_.test.left, ast.Name) and isinstance(i_.test.comparators[0], ast.Constant) and i_.test.comparators[0].value is None:
+                        for st_ in i_.body:
+                            for r in ast.walk(st_):
+                                if isinstance(r, ast.Return) and isinstance(r.value, ast.Name) and r.value.id == i_.test.left.id:
+                                    guarded.add(id(r))
+                nested = set(id(x) for d_ in ast.walk(fn) if d_ is not fn and isinstance(d_, (ast.FunctionDef, ast.AsyncFunctionDef, ast.Lambda)) for x in ast.walk(d_))
+                for r in ast.walk(fn):
+                    if isinstance(r, ast.Return) and id(r) not in nested and id(r) not in guarded and (r.value is None or not solid(r.value, fn)):
+                        ok = False
+                if not ok:
+                    break
+            if ok:
+                good.add(name)
+    return good
+
+
 class _Expr(ast.NodeTransformer):
     def __init__(self, sigs):
         self.sigs = sigs
@@ -139,6 +239,19 @@ class _Expr(ast.NodeTransformer):
             if len(vals) == 1:
                 return vals[0]
             return ast.copy_location(ast.BoolOp(op=ast.Or() if pos else ast.And(), values=vals), n)
+        if len(n.ops) == 1 and isinstance(n.left, ast.Constant) and isinstance(n.comparators[0], ast.Constant):
+            # N33  a comparison of two literals (a helper specialised for / inlined with a literal argument)
+            x, y, op = n.left.value, n.comparators[0].value, type(n.ops[0])
+            try:
+                import operator as _o
+                if op in (ast.Eq, ast.NotEq, ast.Lt, ast.LtE, ast.Gt, ast.GtE):
+                    v = {ast.Eq: _o.eq, ast.NotEq: _o.ne, ast.Lt: _o.lt, ast.LtE: _o.le, ast.Gt: _o.gt, ast.GtE: _o.ge}[op](x, y)
+                    return ast.copy_location(ast.Constant(value=bool(v)), n)
+                if op in (ast.Is, ast.IsNot) and (x is None or y is None or isinstance(x, bool) or isinstance(y, bool)):
+                    v = (x is y) if op is ast.Is else (x is not y)
+                    return ast.copy_location(ast.Constant(value=bool(v)), n)
+            except TypeError:
+                pass
         if len(n.ops) != 1 or type(n.ops[0]) not in FLIP:
             return n
         a, b = n.left, n.comparators[0]
@@ -172,6 +285,25 @@ class _Expr(ast.NodeTransformer):
                 vals.extend(v.values)
             else:
                 vals.append(v)
+        # constant operands: `True and x` -> x, `False and x` -> False, `False or x` -> x, `True or x` -> True (only when the
+        # operand is a literal True / False, i.e. produced by the folding above)
+        if self.in_test or True:
+            keep = []
+            for v in vals:
+                if isinstance(v, ast.Constant) and isinstance(v.value, bool):
+                    if v.value == isinstance(n.op, ast.Or):
+                        # decides the whole expression, provided nothing with an effect is skipped after it: what was kept so far still runs
+                        keep.append(v)
+                        break
+                    continue
+                keep.append(v)
+            if not keep:
+                return ast.copy_location(ast.Constant(value=isinstance(n.op, ast.And)), n)
+            if len(keep) == 1:
+                return keep[0]
+            if isinstance(keep[-1], ast.Constant) and isinstance(keep[-1].value, bool) and all(_pure(k) for k in keep[:-1]):
+                return keep[-1]
+            vals = keep
         n.values = vals
         return n
 
@@ -231,10 +363,99 @@ class _Expr(ast.NodeTransformer):
 
 
 class Canon(object):
-    def __init__(self, sigs):
+    def __init__(self, sigs, never_none=(), sentinels=()):
         self.ex = _Expr(sigs)
         self.count = {}
         self.fns = []
+        self.never_none = set(never_none)
+        self.sentinels = set(sentinels)
+
+    def _none_state(self, stmts, x):
+        """what the last statement of a block says about `x is None` when control leaves the block at its end:
+        True / False / None (unknown); 'dead' when control does not leave it there"""
+        if not stmts:
+            return None
+        last = stmts[-1]
+        if isinstance(last, TERMINATORS):
+            return 'dead'
+        if isinstance(last, ast.Assign) and len(last.targets) == 1 and isinstance(last.targets[0], ast.Name) and last.targets[0].id == x:
+            v = last.value
+            if isinstance(v, ast.Constant):
+                return v.value is None
+            if isinstance(v, (ast.JoinedStr, ast.List, ast.Tuple, ast.Dict, ast.Set)):
+                return False
+            if isinstance(v, ast.Call):
+                f = v.func
+                nm = f.attr if isinstance(f, ast.Attribute) else (f.id if isinstance(f, ast.Name) else None)
+                if nm in self.never_none:
+                    return False
+        return None
+
+    def thread(self, body):
+        """N38  <if/else whose branches end by binding x> ; if x is [not] None: B [else: C]   ->   the second test moves into the branches of
+        the first and is decided there where the binding says so (x = None / x = <a call that never yields None>).  This is how a
+        helper that reports "nothing to do" by returning None reads after it has been written back into its caller."""
+        out = []
+        i = 0
+        while i < len(body):
+            s = body[i]
+            nxt = body[i + 1] if i + 1 < len(body) else None
+            if isinstance(s, ast.If) and isinstance(nxt, ast.If) and _size([nxt]) <= 40:
+                t = nxt.test
+                neg = False
+                while isinstance(t, ast.UnaryOp) and isinstance(t.op, ast.Not):
+                    t, neg = t.operand, not neg
+                if isinstance(t, ast.Compare) and len(t.ops) == 1 and isinstance(t.ops[0], (ast.Is, ast.IsNot)) and isinstance(t.left, ast.Name) \
+                        and isinstance(t.comparators[0], ast.Constant) and t.comparators[0].value is None:
+                    x = t.left.id
+                    is_none_true = isinstance(t.ops[0], ast.Is) != neg          # the test is true exactly when x is None
+                    sb, se = self._none_state(s.body, x), self._none_state(s.orelse, x)
+                    if (sb in (True, False) or se in (True, False)) and sb is not None and se is not None and s.orelse:
+                        def tail(state):
+                            if state == 'dead':
+                                return []
+                            taken = nxt.body if (state == is_none_true) else nxt.orelse
+                            return [copy.deepcopy(z) for z in taken]
+                        s.body = self.block(list(s.body) + tail(sb)) or [ast.copy_location(ast.Pass(), s)]
+                        s.orelse = self.block(list(s.orelse) + tail(se))
+                        out.append(s)
+                        self.hit('N38')
+                        i += 2
+                        continue
+            out.append(s)
+            i += 1
+        return out
+
+    def dead_stores(self, fn):
+        """N39  `x = <constant>` where x is never read anywhere in the function (left over when a None-protocol was threaded away)"""
+        if any(isinstance(n, (ast.Global, ast.Nonlocal, ast.ClassDef)) for n in ast.walk(fn)):
+            return 0
+        if any(isinstance(n, ast.Call) and isinstance(n.func, ast.Name) and n.func.id in ('locals', 'vars', 'eval', 'exec') for n in ast.walk(fn)):
+            return 0
+        loads = set(n.id for n in ast.walk(fn) if isinstance(n, ast.Name) and isinstance(n.ctx, (ast.Load, ast.Del)))
+        hit = [0]
+
+        def clean(stmts):
+            res = []
+            for st in stmts:
+                if isinstance(st, ast.Assign) and len(st.targets) == 1 and isinstance(st.targets[0], ast.Name) and st.targets[0].id not in loads \
+                        and isinstance(st.value, ast.Constant):
+                    hit[0] += 1
+                    continue
+                for f_ in ('body', 'orelse', 'finalbody'):
+                    v = getattr(st, f_, None)
+                    if isinstance(v, list) and v and isinstance(v[0], ast.stmt) and not isinstance(st, (ast.FunctionDef, ast.AsyncFunctionDef)):
+                        nv = clean(v)
+                        if not nv and f_ == 'body':
+                            nv = [ast.copy_location(ast.Pass(), st)]
+                        setattr(st, f_, nv)
+                if isinstance(st, ast.Try):
+                    for h in st.handlers:
+                        h.body = clean(h.body) or [ast.copy_location(ast.Pass(), h)]
+                res.append(st)
+            return res
+        fn.body = clean(fn.body) or [ast.copy_location(ast.Pass(), fn)]
+        return hit[0]
 
     def hit(self, rule):
         self.count[rule] = self.count.get(rule, 0) + 1
@@ -415,14 +636,115 @@ class Canon(object):
                         n.id = nm
             self.hit('N34')
 
+    def fold_sentinels(self, fn):
+        """N42  `x is SENTINEL` where SENTINEL is a module-level `object()` of the package (the "argument not given" marker of a
+        helper) and x is a local every binding of which is something else (an attribute, a call, a literal), or the other side is
+        the very same name: the test has one outcome only.  Left when an inlined helper was called with / without the argument."""
+        if not self.sentinels:
+            return
+        params = set(a.arg for a in fn.args.args + fn.args.kwonlyargs + fn.args.posonlyargs)
+        binds = {}
+        for n in ast.walk(fn):
+            if isinstance(n, ast.Assign):
+                for t in n.targets:
+                    for x in ast.walk(t):
+                        if isinstance(x, ast.Name) and isinstance(x.ctx, ast.Store):
+                            binds.setdefault(x.id, []).append(n.value if (len(n.targets) == 1 and t is x) else None)
+            elif isinstance(n, ast.Name) and isinstance(n.ctx, (ast.Store, ast.Del)):
+                binds.setdefault(n.id, [])
+        other_stores = {}
+        for n in ast.walk(fn):
+            if isinstance(n, ast.Name) and isinstance(n.ctx, (ast.Store, ast.Del)):
+                other_stores[n.id] = other_stores.get(n.id, 0) + 1
+        canon = self
+
+        def foreign(e):
+            if isinstance(e, (ast.Constant, ast.Attribute, ast.Call, ast.BinOp, ast.Subscript, ast.JoinedStr, ast.Tuple, ast.List, ast.Dict)):
+                return not any(isinstance(x, ast.Name) and x.id in canon.sentinels for x in ast.walk(e))
+            if isinstance(e, ast.Name) and e.id not in canon.sentinels and e.id not in params:
+                vs = binds.get(e.id)
+                return bool(vs) and len(vs) == other_stores.get(e.id) and all(v is not None and not isinstance(v, ast.Name) and foreign(v) for v in vs)
+            return False
+
+        class T(ast.NodeTransformer):
+            def visit_Compare(self_, n):
+                self_.generic_visit(n)
+                if len(n.ops) == 1 and isinstance(n.ops[0], (ast.Is, ast.IsNot)):
+                    a, b = n.left, n.comparators[0]
+                    sa_, sb_ = isinstance(a, ast.Name) and a.id in canon.sentinels, isinstance(b, ast.Name) and b.id in canon.sentinels
+                    val = None
+                    if sa_ and sb_:
+                        val = a.id == b.id
+                    elif sa_ and foreign(b) or sb_ and foreign(a):
+                        val = False
+                    if val is not None:
+                        canon.hit('N42')
+                        return ast.copy_location(ast.Constant(value=(val if isinstance(n.ops[0], ast.Is) else not val)), n)
+                return n
+        T().visit(fn)
+
+    def method_aliases(self, fn):
+        """N43  m = obj.attr.method  (bound once, not a parameter, every read of m is the function position of a call)   ->   the calls are
+        written obj.attr.method(...).  A helper that is handed the bound method to call reads like this after inlining."""
+        if any(isinstance(n, (ast.Lambda, ast.ClassDef, ast.Global, ast.Nonlocal)) for n in ast.walk(fn)):
+            return
+        if any(isinstance(n, (ast.FunctionDef, ast.AsyncFunctionDef)) for n in ast.walk(fn) if n is not fn):
+            return
+        params = set(a.arg for a in fn.args.args + fn.args.kwonlyargs + fn.args.posonlyargs)
+        stores, defs = {}, {}
+        for n in ast.walk(fn):
+            if isinstance(n, ast.Name) and isinstance(n.ctx, (ast.Store, ast.Del)):
+                stores[n.id] = stores.get(n.id, 0) + 1
+            elif isinstance(n, ast.ExceptHandler) and n.name:
+                stores[n.name] = stores.get(n.name, 0) + 2
+        for n in ast.walk(fn):
+            if isinstance(n, ast.Assign) and len(n.targets) == 1 and isinstance(n.targets[0], ast.Name) and stores.get(n.targets[0].id) == 1 \
+                    and n.targets[0].id not in params and _chain(n.value) and not any(isinstance(p_, (ast.For, ast.While, ast.AsyncFor)) for p_ in _parents(fn, n)):
+                defs[n.targets[0].id] = n
+        if not defs:
+            return
+        callpos = set(id(n.func) for n in ast.walk(fn) if isinstance(n, ast.Call))
+        for x, d in list(defs.items()):
+            loads = [n for n in ast.walk(fn) if isinstance(n, ast.Name) and n.id == x and isinstance(n.ctx, ast.Load)]
+            root = d.value
+            while isinstance(root, ast.Attribute):
+                root = root.value
+            if not loads or not all(id(n) in callpos for n in loads) or stores.get(root.id, 0) > (0 if root.id in params or root.id == 'self' else 1):
+                del defs[x]
+        if not defs:
+            return
+
+        class T(ast.NodeTransformer):
+            def visit_Name(self_, n):
+                if isinstance(n.ctx, ast.Load) and n.id in defs:
+                    return copy.deepcopy(defs[n.id].value)
+                return n
+
+            def visit_Assign(self_, n):
+                if any(n is d for d in defs.values()):
+                    return ast.copy_location(ast.Pass(), n)
+                return self_.generic_visit(n)
+        T().visit(fn)
+        self.hit('N43')
+
     def module(self, tree):
         tree = self.ex.visit(tree)
         unshare(tree)
         for fn in ast.walk(tree):
             if isinstance(fn, (ast.FunctionDef, ast.AsyncFunctionDef)):
+                self.method_aliases(fn)
+                self.fold_sentinels(fn)
                 self.split_webs(fn)
                 self.propagate(fn)
         tree.body = self.block(tree.body)
+        n39 = 0
+        if self.count.get('N38'):
+            for fn in ast.walk(tree):
+                if isinstance(fn, (ast.FunctionDef, ast.AsyncFunctionDef)):
+                    n39 += self.dead_stores(fn)
+        if n39:
+            self.count['N39'] = self.count.get('N39', 0) + n39
+            tree.body = self.block(tree.body)
         unshare(tree)
         ast.fix_missing_locations(tree)
         return tree
@@ -566,6 +888,8 @@ class Canon(object):
             if isinstance(s, ast.Try):
                 for h in s.handlers:
                     h.body = self.block(h.body)
+        if self.fns:
+            body = self.thread(body)
         body = self.tidy(body, True)
         n25 = self.count.get('N25', 0)
         # right to left, so that what follows an `if` is already in canonical form when the `if` is looked at
@@ -675,6 +999,44 @@ class Canon(object):
                 s = ast.copy_location(ast.Return(value=ast.copy_location(ast.Call(func=s.value.func, args=[ast.copy_location(
                     ast.BinOp(left=s.value.args[0], op=ast.Add(), right=lst), a)], keywords=[]), s)), s)
                 self.hit('N26')
+            res.append(s)
+        out = res
+        # N40  x = y ; x = E(x)   ->   x = E(y)        (y a plain name that E does not bind; what the inliner leaves when a helper re-binds its parameter)
+        res = []
+        for s in out:
+            if res and self.fns and isinstance(s, ast.Assign) and len(s.targets) == 1 and isinstance(s.targets[0], ast.Name) \
+                    and isinstance(res[-1], ast.Assign) and len(res[-1].targets) == 1 and isinstance(res[-1].targets[0], ast.Name) \
+                    and res[-1].targets[0].id == s.targets[0].id and isinstance(res[-1].value, ast.Name) and res[-1].value.id != s.targets[0].id \
+                    and any(isinstance(n, ast.Name) and n.id == s.targets[0].id for n in ast.walk(s.value)) \
+                    and not any(isinstance(n, (ast.NamedExpr, ast.Lambda, ast.ListComp, ast.GeneratorExp, ast.SetComp, ast.DictComp)) for n in ast.walk(s.value)):
+                x, y = s.targets[0].id, res[-1].value.id
+
+                class _R(ast.NodeTransformer):
+                    def visit_Name(self_, n):
+                        if n.id == x and isinstance(n.ctx, ast.Load):
+                            return ast.copy_location(ast.Name(id=y, ctx=ast.Load()), n)
+                        return n
+                res.pop()
+                s = ast.copy_location(ast.Assign(targets=s.targets, value=_R().visit(s.value)), s)
+                self.hit('N40')
+            res.append(s)
+        out = res
+        # N41  t = <call> ; f(a.., t, ..)   ->   f(a.., <call>, ..)     (t a temporary made up by the inliner, bound once and read once in the whole function,
+        #      the arguments before it call-free, f itself a call-free expression)
+        res = []
+        for s in out:
+            if res and self.fns and isinstance(res[-1], ast.Assign) and len(res[-1].targets) == 1 and isinstance(res[-1].targets[0], ast.Name) \
+                    and isinstance(res[-1].value, ast.Call) and isinstance(s, (ast.Expr, ast.Assign, ast.Return)) and isinstance(s.value, ast.Call) \
+                    and _pure(s.value.func) and not s.value.keywords:
+                t = res[-1].targets[0].id
+                uses = [n for n in ast.walk(self.fns[-1]) if isinstance(n, ast.Name) and n.id == t]
+                idx = [i for i, a_ in enumerate(s.value.args) if isinstance(a_, ast.Name) and a_.id == t]
+                import re as _re
+                made = _re.search(r'__\w+?\d+_*$', t) or _re.match(r'_v\d+$', t)          # a name the inliner made up (hand-written temporaries are left alone)
+                if made and len(uses) == 2 and len(idx) == 1 and all(_pure(a_) for a_ in s.value.args[:idx[0]]):
+                    a = res.pop()
+                    s.value.args[idx[0]] = a.value
+                    self.hit('N41')
             res.append(s)
         out = res
         # N5
@@ -985,11 +1347,25 @@ def canonicalise(trees, skip=()):
     if n35:
         total['N35'] = n35
 
+    nn = set()
+    # module-level `NAME = object()` bound once in the package: unique markers
+    cnt = {}
+    for n_, t_ in trees.items():
+        if n_ in skip:
+            continue
+        for st in t_.body:
+            if isinstance(st, ast.Assign):
+                for tg in st.targets:
+                    if isinstance(tg, ast.Name):
+                        is_obj = isinstance(st.value, ast.Call) and isinstance(st.value.func, ast.Name) and st.value.func.id == 'object' and not st.value.args and not st.value.keywords
+                        cnt.setdefault(tg.id, []).append(is_obj)
+    sent = set(k for k, v in cnt.items() if v == [True])
+
     def run():
         for n, t in list(trees.items()):
             if n in skip:
                 continue
-            c = Canon(sigs)
+            c = Canon(sigs, nn, sent)
             trees[n] = c.module(t)
             for k, v in c.count.items():
                 total[k] = total.get(k, 0) + v
@@ -998,5 +1374,13 @@ def canonicalise(trees, skip=()):
     n_inl = inline.inline_all(trees, skip=skip)
     if n_inl:
         total['INLINE'] = n_inl
+    nn |= never_none_functions([t for n, t in trees.items() if n not in skip])
+    run()
+    # some rewrites only become possible once another one has been written back into the function (a temporary that is read once
+    # AFTER two bindings were merged): repeat while the trees still change
+    for _ in range(3):
+        before = [ast.dump(t) for n, t in sorted(trees.items()) if n not in skip]
         run()
+        if before == [ast.dump(t) for n, t in sorted(trees.items()) if n not in skip]:
+            break
     return total
